@@ -40,19 +40,29 @@ func (t *TransactionBase) Success() {
 	t.mutex.Lock()
 	defer t.mutex.Unlock()
 
+	if t.finished() {
+		return
+	}
 	t.finish()
 }
 
+// You must acquire lock on t.mutex before calling this function!
+func (t *TransactionBase) finished() bool {
+	select {
+	case <-t.done:
+		return true
+	default:
+		return false
+	}
+}
+
 // You must acquire write lock on t.mutex before calling this function!
+// The transaction must not be finished yet.
 func (t *TransactionBase) finish() {
 	if t.finally != nil {
 		t.finally()
 	}
-	select {
-	case <-t.done:
-	default:
-		close(t.done)
-	}
+	close(t.done)
 }
 
 // Transaction.Err() implementation.
@@ -68,6 +78,10 @@ func (t *TransactionBase) Fail(e error) {
 	t.mutex.Lock()
 	defer t.mutex.Unlock()
 
+	// A finished transaction stays finished: its result must not change.
+	if t.finished() {
+		return
+	}
 	t.err = e
 	t.finish()
 }
